@@ -1,4 +1,6 @@
 //! C05 witness search / bounded stand-in: event sequences on the REAL OrderBook against a BTreeMap price->amount model.
+//! After EVERY event: both sides equal the map (best-first, no duplicate prices), sequence, mid / volume-weighted mid price, and
+//! `snapshot(depth)` for every depth 0..=len+2 returns the best N levels of each side (the books are asymmetric in general).
 use crate::report;
 use barter_data::{books::{Level, OrderBook}, subscription::book::OrderBookEvent};
 use rust_decimal::Decimal;
@@ -18,18 +20,45 @@ fn apply_model(m: &mut Model, snapshot: bool, seq: u64, bids: &[(i64, i64)], ask
     }
     m.2 = seq;
 }
-fn check(book: &OrderBook, m: &Model) -> Option<(&'static str, String, String)> {
-    let bids: Vec<(Decimal, Decimal)> = book.bids().levels().iter().map(|l| (l.price, l.amount)).collect();
-    let asks: Vec<(Decimal, Decimal)> = book.asks().levels().iter().map(|l| (l.price, l.amount)).collect();
+type Fail = (&'static str, String, String);
+const L_SNAP: &str = "C05.bounded.snapshot_depth_best_n_of_each_side";
+const L_DUP: &str = "C05.bounded.no_duplicate_prices";
+fn pairs(ls: &[Level]) -> Vec<(Decimal, Decimal)> { ls.iter().map(|l| (l.price, l.amount)).collect() }
+/// every clause that fails on this book (one entry per label at most)
+fn check(book: &OrderBook, m: &Model) -> Vec<Fail> {
+    let mut out: Vec<Fail> = vec![];
+    let bids = pairs(book.bids().levels());
+    let asks = pairs(book.asks().levels());
     let mb: Vec<_> = m.0.iter().rev().map(|(p, a)| (*p, *a)).collect();
     let ma: Vec<_> = m.1.iter().map(|(p, a)| (*p, *a)).collect();
-    if bids != mb { return Some(("C05.bounded.bids_equal_map", format!("{bids:?}"), format!("{mb:?}"))); }
-    if asks != ma { return Some(("C05.bounded.asks_equal_map", format!("{asks:?}"), format!("{ma:?}"))); }
-    if book.sequence != m.2 { return Some(("C05.bounded.sequence_of_last_event", format!("{}", book.sequence), format!("{}", m.2))); }
+    // a price->amount map holds every price once: strictly descending bids / strictly ascending asks
+    for (name, side, desc) in [("bids", &bids, true), ("asks", &asks, false)] {
+        if let Some(w) = side.windows(2).find(|w| w[0].0 == w[1].0) {
+            out.push((L_DUP, format!("{name} hold price {} twice: {side:?}", w[0].0), format!("every price at most once, {}: {:?}", if desc { "descending" } else { "ascending" }, if desc { &mb } else { &ma })));
+            break;
+        }
+    }
+    if bids != mb { out.push(("C05.bounded.bids_equal_map", format!("{bids:?}"), format!("{mb:?}"))); }
+    if asks != ma { out.push(("C05.bounded.asks_equal_map", format!("{asks:?}"), format!("{ma:?}"))); }
+    if book.sequence != m.2 { out.push(("C05.bounded.sequence_of_last_event", format!("{}", book.sequence), format!("{}", m.2))); }
     let mid = match (mb.first(), ma.first()) {
         (Some(b), Some(a)) => Some((b.0 + a.0) / Decimal::TWO), (Some(b), None) => Some(b.0), (None, Some(a)) => Some(a.0), (None, None) => None };
-    if book.mid_price() != mid { return Some(("C05.bounded.mid_price", format!("{:?}", book.mid_price()), format!("{mid:?}"))); }
-    None
+    if book.mid_price() != mid { out.push(("C05.bounded.mid_price", format!("{:?}", book.mid_price()), format!("{mid:?}"))); }
+    let vw = match (mb.first(), ma.first()) {
+        (Some(b), Some(a)) => Some((b.0 * a.1 + a.0 * b.1) / (b.1 + a.1)), (Some(b), None) => Some(b.0), (None, Some(a)) => Some(a.0), (None, None) => None };
+    if book.volume_weighed_mid_price() != vw { out.push(("C05.bounded.volume_weighted_mid_price", format!("{:?}", book.volume_weighed_mid_price()), format!("{vw:?}"))); }
+    // depth-limited snapshot: the best N levels of EACH side (the sides are clamped independently), same sequence / time
+    for depth in 0..=mb.len().max(ma.len()) + 2 {
+        let snap = book.snapshot(depth);
+        let (sb, sa) = (pairs(snap.bids().levels()), pairs(snap.asks().levels()));
+        let (eb, ea): (Vec<_>, Vec<_>) = (mb.iter().take(depth).copied().collect(), ma.iter().take(depth).copied().collect());
+        if sb != eb || sa != ea || snap.sequence != m.2 || snap.time_engine != book.time_engine {
+            out.push((L_SNAP, format!("snapshot(depth={depth}) of a book with {} bid / {} ask levels -> sequence={} bids={sb:?} asks={sa:?}", mb.len(), ma.len(), snap.sequence),
+                format!("sequence={} bids={eb:?} asks={ea:?}", m.2)));
+            break;
+        }
+    }
+    out
 }
 fn levels(ls: &[(i64, i64)]) -> Vec<Level> { ls.iter().map(|(p, a)| Level::new(Decimal::from(*p), Decimal::from(*a))).collect() }
 
@@ -45,10 +74,11 @@ fn run_seq(events: &[(bool, Vec<(i64, i64)>, Vec<(i64, i64)>)], seen: &mut HashS
         trace.push(format!("{}(seq={seq}, bids={bids:?}, asks={asks:?})", if *snapshot { "Snapshot" } else { "Update" }));
         book.update(ev);
         apply_model(&mut m, *snapshot, seq, bids, asks);
-        if let Some((label, obs, exp)) = check(&book, &m) {
-            if seen.insert(label) { report(label, format!("events: {}", trace.join(" ; ")), obs, exp); }
-            return;
+        let fails = check(&book, &m);
+        for (label, obs, exp) in &fails {
+            if seen.insert(*label) { report(label, format!("events: {}", trace.join(" ; ")), obs.clone(), exp.clone()); }
         }
+        if !fails.is_empty() { return; }
     }
 }
 
@@ -67,6 +97,53 @@ pub fn run(seed: u64, thorough: bool) -> u64 {
             for l2 in &lists {
                 run_seq(&[(true, s.clone(), s.clone()), (false, l1.clone(), l2.clone()), (false, l2.clone(), l1.clone())], &mut seen);
                 n += 1;
+            }
+        }
+    }
+    // crafted ASYMMETRIC books (nb bid levels x na ask levels, incl. an empty side), built by a snapshot or by updates only; then, on each
+    // side, an update whose price equals the current WORST (deepest) level (incl. one-level sides) has to replace it, and a delete of that
+    // price has to remove it; `check` takes snapshot(depth) for every depth 0..=len+2 after every event
+    for nb in 0..=4usize {
+        for na in 0..=4usize {
+            for by_updates in [false, true] {
+                let bids: Vec<(i64, i64)> = (0..nb).map(|k| (50 - 2 * k as i64, 1 + k as i64)).collect();
+                let asks: Vec<(i64, i64)> = (0..na).map(|k| (51 + 2 * k as i64, 2 + k as i64)).collect();
+                for order in 0..3u8 {
+                    // order of the levels inside the event: best-first, worst-first, interleaved
+                    let arrange = |v: &Vec<(i64, i64)>| -> Vec<(i64, i64)> { let mut v = v.clone(); match order { 0 => {} 1 => v.reverse(), _ => { if v.len() > 2 { v.swap(0, 2); } } } v };
+                    let mut evs: Vec<(bool, Vec<(i64, i64)>, Vec<(i64, i64)>)> = vec![];
+                    if by_updates {
+                        evs.push((true, vec![], vec![]));
+                        for l in arrange(&bids) { evs.push((false, vec![l], vec![])); }
+                        for l in arrange(&asks) { evs.push((false, vec![], vec![l])); }
+                    } else {
+                        evs.push((true, arrange(&bids), arrange(&asks)));
+                    }
+                    for touch in 0..4u8 {
+                        // 0: bids' worst, 1: asks' worst, 2: both in one event, 3: worst re-priced twice, then a deeper level appended, then deleted
+                        let mut e = evs.clone();
+                        let (wb, wa) = (bids.last().copied(), asks.last().copied());
+                        let b_upd: Vec<(i64, i64)> = wb.iter().map(|(p, a)| (*p, a + 7)).collect();
+                        let a_upd: Vec<(i64, i64)> = wa.iter().map(|(p, a)| (*p, a + 7)).collect();
+                        let b_del: Vec<(i64, i64)> = wb.iter().map(|(p, _)| (*p, 0)).collect();
+                        let a_del: Vec<(i64, i64)> = wa.iter().map(|(p, _)| (*p, 0)).collect();
+                        match touch {
+                            0 => { e.push((false, b_upd, vec![])); e.push((false, b_del, vec![])); }
+                            1 => { e.push((false, vec![], a_upd)); e.push((false, vec![], a_del)); }
+                            2 => { e.push((false, b_upd, a_upd)); e.push((false, b_del, a_del)); }
+                            _ => {
+                                e.push((false, b_upd.clone(), a_upd.clone()));
+                                e.push((false, b_upd.iter().map(|(p, a)| (*p, a + 1)).collect(), a_upd.iter().map(|(p, a)| (*p, a + 1)).collect()));
+                                e.push((false, vec![(10, 3)], vec![(90, 3)]));
+                                e.push((false, vec![(10, 4)], vec![(90, 4)]));
+                                e.push((false, vec![(10, 0)], vec![(90, 0)]));
+                                e.push((false, b_del, a_del));
+                            }
+                        }
+                        run_seq(&e, &mut seen);
+                        n += 1;
+                    }
+                }
             }
         }
     }
